@@ -127,6 +127,42 @@ def check_case(find, spec, k, L, form, seed=0):
     return good
 
 
+def lexicase_duplicates(find):
+    """LexicaseSelection on populations in which the same Individual object occurs more than once (unapplied crossover /
+    mutation and elitism hand on the same objects): asked for k <= len(population) it must still yield exactly k."""
+    from geneticengine.algorithms.gp.operators.selection import LexicaseSelection
+    from geneticengine.problems import MultiObjectiveProblem
+    from geneticengine.random.sources import NativeRandomSource
+    from geneticengine.solutions.individual import Individual
+    from rt.search_helpers import IntRep, TableFitness, multi_tracker
+
+    n = 0
+    for pattern in ((0, 1, 0, 2, 1, 3), (0, 0, 0, 1), (0, 1, 2, 2, 2, 0, 1), (0, 0)):
+        for epsilon in (False, True):
+            rep = IntRep()
+            distinct = max(pattern) + 1
+            ff = TableFitness([[i % 3, (i * 2) % 3] for i in range(distinct)] + [[0, 0]])
+            problem = MultiObjectiveProblem([False, True], ff)
+            tracker = multi_tracker(problem)
+            base = [Individual(rep.create_genotype(None), rep) for _ in range(distinct)]
+            pop = [base[i] for i in pattern]
+            for k in range(1, len(pop) + 1):
+                n += 1
+                try:
+                    out = list(LexicaseSelection(epsilon=epsilon).apply(problem, tracker.evaluator, rep, NativeRandomSource(k), list(pop), k, 1))
+                    exc = None
+                except Exception as ex:  # noqa
+                    out, exc = [], ex
+                if exc is not None or len(out) != k:
+                    find.add(
+                        "rt:C15:LexicaseSelection.exactly_k",
+                        f"LexicaseSelection(epsilon={epsilon}) asked for k={k} with a list of {len(pop)} individuals in which objects repeat (pattern {list(pattern)}) "
+                        + (f"raised {type(exc).__name__}: {str(exc)[:60]}" if exc is not None else f"yielded {len(out)}"),
+                        (len(pop), k),
+                    )
+    return n
+
+
 def all_weight_vectors(max_len=4):
     for n in range(1, max_len + 1):
         for w in itertools.product(WEIGHT_VALUES, repeat=n):
@@ -257,6 +293,8 @@ def run(tier: str, seed: int) -> dict:
                     exhaustive = False
                     break
                 case(spec, k, k, form)
+    # lexicase on populations in which Individual objects repeat
+    evaluations += lexicase_duplicates(find)
     # one nesting family with lexicase (multi-objective problem)
     for w in ((1, 1), (1, 2)):
         for k in range(2, 9):
